@@ -13,6 +13,7 @@ import (
 	"verif/internal/ev"
 	"verif/internal/explore"
 	"verif/internal/imp"
+	"verif/internal/jh"
 )
 
 // C05: import names are unique and legal for any path, hint and prefix.
@@ -212,6 +213,9 @@ var c05Families = []*family{
 	{name: "many-names", ctors: []string{"NewFile"}, paths: []string{"x/bar", "x/foo", "x/zed", "y/baz", "w/zed", "v/foo"},
 		names:   map[string]string{},
 		aliases: []string{"zed"}, prefixes: []string{"p"}, maxRefs: 5, freeRefs: 5, wrappers: []int{0, imp.WrapperIndex("dictvalue"), imp.WrapperIndex("dictkey")}, anon: false, oneDict: true},
+	{name: "unsafe", ctors: []string{"NewFile"}, paths: []string{"unsafe", "x/unsafe", "internal/unsafeheader", "y/Unsafe", "fmt"},
+		names:   map[string]string{"x/unsafe": "unsafe", "internal/unsafeheader": "unsafeheader", "y/Unsafe": "unsafe"},
+		aliases: []string{"unsafe", "unsafe1"}, prefixes: []string{"p"}, maxRefs: 4, freeRefs: 4, wrappers: []int{0}, anon: true},
 	{name: "cgo", ctors: []string{"NewFile"}, paths: []string{"C", "b/C", "c/C", "fmt"},
 		names:   map[string]string{"b/C": "C", "c/C": "C"},
 		aliases: []string{"C", "C1"}, prefixes: []string{"p"}, maxRefs: 4, freeRefs: 4, wrappers: []int{0}, anon: true, preambleOpts: [][]string{nil, {"#include <a.h>"}}},
@@ -229,7 +233,7 @@ func runC05(r *ev.Recorder) {
 		"x prefix on/off x 0..2 competing paths with the same last element x every reference order; (ii) every path string of length 1..%d over the %d character classes guessAlias distinguishes "+
 		"(lower, upper, ASCII digit, '/', '.', '-', '_', non-ASCII letter, non-ASCII digit, a letter whose lower-casing changes length; below the maximal length also a superscript digit and a letter-number, which no identifier may contain), alone, doubled and tripled (same last element), prefix on/off; "+
 		"(iv) every base b such that b<number> is predeclared (int, uint, float3, complex12, ...) with 1..10 competing paths (by last element / by ImportName), prefix on/off; (iii) path families competing for one base name (one of them with many distinct names and references inside Dict keys/values): every reference sequence of length <= 4 in every order with <= %d non-default settings (hints, Anon, prefix). "+
-		"Oracle on the parsed output: every written import name satisfies token.IsIdentifier, is no keyword and not in types.Universe; no two specs share an effective name; go/types reports no error. "+
+		"(vii) the paths of every family as stand-alone fragments rendered with one File, every ordered subset of up to 3, prefix on/off: qualifiers legal and distinct. Oracle on the parsed output: every written import name satisfies token.IsIdentifier, is no keyword and not in types.Universe; no two specs share an effective name; go/types reports no error. "+
 		"distinct_nontrivial = distinct outputs in which jennifer had to rename (some spec carries an alias)", len(c05Words), maxLen, len(c05Classes), dev)
 	r.Assume = []string{"keywords and predeclared identifiers are taken from go/token and go/types of the installed toolchain, never from jennifer",
 		"path strings longer than the bound or with characters outside the 10 classes are outside the bound"}
@@ -318,6 +322,60 @@ func runC05(r *ev.Recorder) {
 			continue
 		}
 		judge(w, c, "c05:rerender")
+	}
+
+	// (vii) the paths of a family rendered as stand-alone fragments with ONE File, in every order of
+	// every subset of up to three paths, prefix on/off: the qualifiers shown are legal and distinct
+	for _, fam := range c05Families {
+		var subsets [][]string
+		for i, a := range fam.paths {
+			subsets = append(subsets, []string{a})
+			for j, b := range fam.paths {
+				if j == i {
+					continue
+				}
+				subsets = append(subsets, []string{a, b})
+				for k, c := range fam.paths {
+					if k != i && k != j {
+						subsets = append(subsets, []string{a, b, c})
+					}
+				}
+			}
+		}
+		for _, seq := range subsets {
+			for _, prefix := range []string{"", "pkg"} {
+				f := jen.NewFile("p")
+				f.PackagePrefix = prefix
+				shown := map[string]string{}
+				msg := ""
+				for _, p := range seq {
+					o := jh.Catch(func() (string, error) {
+						var b strings.Builder
+						err := jen.Qual(p, "X").RenderWithFile(&b, f)
+						return b.String(), err
+					})
+					if !o.OK() {
+						msg = fmt.Sprintf("fragment Qual(%q) fails: %s", p, jh.Short(o.String(), 120))
+						break
+					}
+					q := strings.TrimSuffix(strings.TrimSpace(o.Out), ".X")
+					if p != "C" {
+						if why := imp.IllegalName(q); why != "" {
+							msg = fmt.Sprintf("fragment Qual(%q) is qualified by %q, which is %s", p, q, why)
+						}
+					}
+					if other, dup := shown[q]; dup && other != p {
+						msg = fmt.Sprintf("fragments for %q and %q are both qualified by %q", other, p, q)
+					}
+					shown[q] = p
+				}
+				r.Eval(1)
+				r.Distinct(fmt.Sprintf("fragments:%s:%v:%s", fam.name, seq, prefix))
+				if msg != "" {
+					r.Violate(ev.Violation{Signature: "c05:fragments:" + fam.name + ":" + problemKind(msg), What: fmt.Sprintf("fragments Qual(p, X) for %v rendered with one File (prefix %q): %s", seq, prefix, msg), Case: ev.JSON(c05Case{Kind: "rerender", Family: fam.name}), Detail: msg})
+				}
+			}
+		}
 	}
 
 	// (v) many imports in one File: N paths with the same last element (plus two std packages called
